@@ -18,6 +18,11 @@ Tie (every run):
     quarter, with and without through-centre): text map or explicit list -> saveToStream(tryMap) -> load; the saved map must be
     the drawing of the class that READING dispatches to (Lean dispatch / saveLattice / readLattice, function level) and reload
     to the same contents; only drawings the dispatched class itself leaves incomplete count as the known hole findings.
+  * third-core cores (run_third): first thirds of 2-4 rings with holes, with / without edge assemblies on the 120-degree line,
+    and with a location genuinely outside the first third (refused); Lean loadThird / inFirstThird / onOverlapLine.
+  * custom isotopics that carry a density (explicit or implied by number densities) on library solids (UZr, UO2, HT9), fluids and
+    Custom at Thot = / != Tinput: ComponentBlueprint.construct under both height conventions (hot density = custom / (1+dL/L)^2
+    resp. ^3; Lean customDensityHot) and the mass the input text describes at assembly level (default convention).
   * declaration order (run_order): hex blocks with 1-3 nested ducts, liners abutting the clad, wire-wrapped pins that fit or
     exceed the INNER duct, overlapping solids; every permutation of the component declarations must get the same verdict (the one
     the dimensions call for) and the same block (Lean verifyBlockDims, theorem verifyBlockDims_perm).
@@ -882,6 +887,14 @@ def check_reactor(ctx, doc, r, contents, tag, B):
     got = {tuple(int(v) for v in a.spatialLocator.indices[:2]): a for a in core}
     # placement (model: place)
     names = {a["specifier"]: an for an, a in doc["assems"].items()}
+    # third-core maps may name "edge assemblies" on the 120-degree symmetry line (2i + j = 0, j > 0): legal input that Core.add
+    # accepts with symmetryOverlap and removeEdgeAssemblies trims afterwards; there the reactor either holds the specified design
+    # or nothing, everywhere else exactly what is specified
+    edge = {c for c in contents if doc["symmetry"].startswith("third") and 2 * c[0] + c[1] == 0 and c[1] > 0}
+    trimmed = {c for c in edge if c not in got}
+    if edge:
+        ctx.count("third-core documents naming edge assemblies (120-degree line)")
+        contents = {c: v for c, v in contents.items() if c not in trimmed}
     B.send("place [" + ",".join(f"{an}={a['specifier']}" for an, a in doc["assems"].items()) + "] [" +
            ",".join(f"{i}:{j}:{s}" for (i, j), s in contents.items()) + "]",
            "[" + ",".join(f"{i}:{j}:{got[(i, j)].getType() if (i, j) in got else 'MISSING'}" for (i, j) in contents) + "]", case)
@@ -1631,6 +1644,79 @@ def run_grids(ctx):
     flush_grid_q(ctx)
 
 
+# =========================================================================== third-core maps, edge assemblies
+def run_third(ctx):
+    """Third-core (`third periodic`) hex cores given as explicit grid contents (and as text maps where the third-core map class
+    can draw them): complete first thirds of 2..4 rings with holes, with and without edge assemblies on the 120-degree line
+    (rings 3, 5), and documents naming a location genuinely outside the first third. Legal documents build and hold the
+    specified designs (edge assemblies: the specified design or trimmed); only outside locations are refused.
+    Model: Blueprint.loadThird / inFirstThird / onOverlapLine (function level against HexGrid)."""
+    from armi.reactor import grids
+    rng = ctx.rng
+    B = BP(ctx)
+    g = grids.HexGrid.fromPitch(1.0, numRings=0)
+    g.symmetry = "third periodic"
+    for c in hex_cells(7):
+        loc = g[c[0], c[1], 0]
+        dom = g.locatorInDomain(loc)
+        over = g.locatorInDomain(loc, symmetryOverlap=True)
+        B.send(f"firstthird {c[0]} {c[1]}", ("T" if dom else "F") + ("T" if (over and not dom) else "F"), {"cell": list(c)})
+        if g.isInFirstThird(loc) != dom:
+            fail_few(ctx, "third-domain-inconsistent", "the represented domain of a third-core grid is its first third", {"cell": list(c)})
+    with common.scratch_dir("c18t-"):
+        for t in range(ctx.pick(10, 80)):
+            doc = gen_doc(rng, "hex")
+            doc["symmetry"] = "third periodic"
+            specs = [a["specifier"] for a in doc["assems"].values()]
+            rings = rng.choice([2, 3, 4]) if t >= 3 else [2, 3, 4][t]
+            cells = third_cells(rings)
+            p = rng.choice([0.0, 0.15])
+            doc["contents"] = {c: rng.choice(specs) for c in cells if c == (0, 0) or rng.random() >= p}
+            mode = ["edge", "edge", "plain", "outside"][t % 4] if t >= 3 else "edge"
+            edges = [(-k, 2 * k) for k in (1, 2, 3) if 2 * k <= rings]
+            named_edges = []
+            if mode == "edge":
+                for e in edges:
+                    if e is edges[0] or rng.random() < 0.7:
+                        # the duplicate of the assembly on the 0-degree line (or any design where that cell is a hole)
+                        doc["contents"][e] = doc["contents"].get((e[1], -e[0] - e[1]), rng.choice(specs))
+                        named_edges.append(e)
+            outside = None
+            if mode == "outside":
+                cand = [c for c in hex_cells(rings) if c not in cells and not (2 * c[0] + c[1] == 0 and c[1] > 0)]
+                outside = rng.choice(cand)
+                doc["contents"][outside] = rng.choice(specs)
+            items = list(doc["contents"].items())
+            rng.shuffle(items)
+            doc["contents"] = dict(items)
+            text_map = lattice_text(doc) if rng.random() < 0.5 else None
+            text = to_yaml(doc, text_map)
+            tag = f"third#{t}:{mode}:{rings} rings:{'map' if text_map else 'list'}"
+            case = {"tag": tag, "edge cells": [list(e) for e in named_edges], "outside": None if outside is None else list(outside), "yaml": text}
+            contents = independent_contents(ctx, doc, text_map, None)
+            try:
+                r = build(text)
+                err = None
+            except Exception as e:
+                r, err = None, f"{type(e).__name__}: {e}"[:300]
+            B.send("thirdload [" + ",".join(f"{i}:{j}:{sp}" for (i, j), sp in contents.items()) + "]",
+                   "reject" if r is None else "[" + ",".join(f"{i}:{j}:{sp}" for (i, j), sp in contents.items()
+                                                              if (i, j) in {tuple(int(v) for v in a.spatialLocator.indices[:2]) for a in r.core}) + "]", case)
+            if mode == "outside":
+                if r is not None:
+                    fail_few(ctx, "bp-inconsistent-accepted:location-outside-first-third", "a third-core map naming a location outside the "
+                             "first third is refused", case)
+                ctx.count("third-core documents naming an outside location: " + ("refused" if r is None else "built"))
+            elif r is None:
+                fail_few(ctx, "bp-wellformed-refused:third-core-edge-assemblies" if named_edges else "bp-wellformed-refused",
+                         "a well-formed blueprint builds (edge assemblies on the 120-degree line of a third-core map are legal input)", case, observed=err)
+            else:
+                check_reactor(ctx, doc, r, contents, tag, B)
+                ctx.count(f"third-core documents built ({mode}, {'lattice map' if text_map else 'grid contents'})")
+            ctx.case(("third", tag, text), nontrivial=True, sample={"tag": tag} if t < 2 else None)
+    _flush_bp(ctx, B)
+
+
 # =========================================================================== declaration order of a block's components
 def _rings_for(npins):
     """Rings of a hex pin lattice needed for npins positions (1, 7, 19, ...): smallest n with 3n(n-1)+1 >= npins."""
@@ -1982,10 +2068,15 @@ def gen_iso_doc(rng):
         for cn, od, mult in (("fuel", 0.75, 61.0), ("slug", 0.25, 7.0)):
             if cn == "slug" and rng.random() < 0.4:
                 continue
-            mat = rng.choice(["UZr", "UZr", "Custom"])
+            mat = rng.choice(["UZr", "UZr", "Custom", "UO2", "HT9"])
             tin = rng.choice([20.0, 25.0])
             comps[cn] = dict(shape="Circle", material=mat, isotopics=rng.choice(names), Tinput=tin,
-                             Thot=tin if (mat == "Custom" or rng.random() < 0.5) else 600.0, id=0.0, od=od, mult=mult)
+                             Thot=tin if (mat == "Custom" or rng.random() < 0.4) else rng.choice([600.0, 450.0, 300.0]), id=0.0, od=od, mult=mult)
+        if rng.random() < 0.5:
+            # a FLUID with custom isotopics (and possibly a custom density): its density follows the fluid's own temperature law
+            tin = rng.choice([200.0, 350.0])
+            comps["pool"] = dict(shape="Circle", material=rng.choice(["Sodium", "Lead"]), isotopics=rng.choice(names), Tinput=tin,
+                                 Thot=rng.choice([tin, 500.0]), id=0.0, od=0.5, mult=3.0)
         comps["coolant"] = dict(shape="DerivedShape", material="Sodium", Tinput=450.0, Thot=450.0)
         comps["duct"] = dict(shape="Hexagon", material="HT9", Tinput=25.0, Thot=25.0, ip=14.0, op=14.5, mult=1.0)
         blocks["fuel" if bi == 0 else f"fuel {bi}"] = comps
@@ -2009,7 +2100,8 @@ def gen_iso_doc(rng):
         for key, colv in mm.items():
             for cvals in ([colv] if key != "by component" else list(colv["fuel"].values())):
                 for k, bname in enumerate(bl):
-                    if blocks[bname]["fuel"]["material"] != "UZr":
+                    if blocks[bname]["fuel"]["material"] != "UZr" or any(c.get("material") in ("UO2", "HT9") and "isotopics" in c
+                                                                         for c in blocks[bname].values()):
                         cvals[k] = ""
         if mm:
             a["matmods"] = mm
@@ -2074,7 +2166,121 @@ def iso_signature(a):
     return sig
 
 
+ISO_Q = []
+
+
+def iso_density(iso):
+    """The density a custom isotopic vector carries: explicit, or implied by `number densities` input (sum of N_i A_i / N_A)."""
+    from armi.nucDirectory import nucDir
+    from armi.utils import units
+    if iso["form"] == "number densities":
+        return sum(v * nucDir.getAtomicWeight(n) for n, v in iso["vals"].items()) / units.MOLES_PER_CC_TO_ATOMS_PER_BARN_CM
+    return iso["density"]
+
+
+def iso_mass_check(ctx, doc, text, case0):
+    """A component whose custom isotopics carry a density holds the mass the input text describes:
+      density x cold cross-section x mult x height.  Library SOLIDS at Thot != Tinput: with input heights considered hot the
+      block height is the hot height, so the hot density is custom / (1 + dL/L)^2 (mass = custom x cold area x input height);
+      with cold input heights the hot density is custom / (1 + dL/L)^3 (mass per hot cm = custom x cold area / (1 + dL/L)).
+      Fluids follow their own density law (custom x rho(Thot) / rho(Tinput)), Custom materials hold the custom density as is.
+    Thermal expansion and the fluids' density law are the material's own (parameters)."""
+    import math
+    from armi import settings
+    from armi.reactor import blueprints
+    from armi.materials import Fluid
+    # ---- function level: ComponentBlueprint.construct under both height conventions (before any axial expansion)
+    try:
+        bp0 = blueprints.Blueprints.load(io.StringIO(text))
+        bp0._prepConstruction(settings.Settings().modified(newSettings={"power": 1e6, "nCycles": 1, "burnSteps": 1}))
+    except Exception as e:
+        fail_few(ctx, "bp-wellformed-refused", "a well-formed blueprint builds", case0, observed=f"{type(e).__name__}: {e}"[:300])
+        return
+    for bt, comps in doc["blocks"].items():
+        for design in bp0.blockDesigns[bt]:
+            cd = comps.get(design.name)
+            if not cd or "isotopics" not in cd:
+                continue
+            iso = doc["isos"][cd["isotopics"]]
+            rho = iso_density(iso)
+            if rho is None:
+                continue
+            for hot in (True, False):
+                case = {**case0, "type": bt, "component": design.name, "material": cd["material"], "Tinput": cd["Tinput"], "Thot": cd["Thot"],
+                        "isotopics": cd["isotopics"], "form": iso["form"], "custom density": rho, "inputHeightsConsideredHot": hot}
+                try:
+                    c = design.construct(bp0, {}, hot)
+                except Exception as e:
+                    fail_few(ctx, "bp-wellformed-refused", "a well-formed blueprint builds", case, observed=f"{type(e).__name__}: {e}"[:300])
+                    continue
+                if cd["material"] == "Custom":
+                    kind, want = "Custom", rho
+                elif isinstance(c.material, Fluid):
+                    kind, want = "fluid", rho * c.material.density(Tc=cd["Thot"]) / c.material.density(Tc=cd["Tinput"])
+                else:
+                    dLL = c.material.linearExpansionFactor(Tc=cd["Thot"], T0=cd["Tinput"])
+                    kind, want = "solid", rho / (1.0 + dLL) ** (2 if hot else 3)
+                    ISO_Q.append((f"customdensity {'T' if hot else 'F'} {common.rat(rho)} {common.rat(dLL)}", c.density(), case))
+                if abs(c.density() - want) > 1e-9 * want:
+                    fail_few(ctx, f"bp-custom-density:{kind}", "a custom isotopic with a density gives the component that density at the input "
+                             "temperature: hot input heights -> hot density = custom / (1 + dL/L)^2, cold input heights -> ^3", case,
+                             observed=c.density(), expected=want)
+                ctx.count(f"custom-density components constructed ({kind}, {'Thot = Tinput' if cd['Thot'] == cd['Tinput'] else 'Thot != Tinput'}, "
+                          f"{'hot' if hot else 'cold'} input heights)")
+    # ---- assembly level, default convention (input heights are hot): the mass the text describes
+    for hot in (True,):
+        cs = settings.Settings().modified(newSettings={"power": 1e6, "nCycles": 1, "burnSteps": 1, "inputHeightsConsideredHot": hot})
+        try:
+            bp = blueprints.Blueprints.load(io.StringIO(text))
+            built = {an: bp.constructAssem(cs, name=an) for an in doc["assems"]}
+        except Exception as e:
+            fail_few(ctx, "bp-wellformed-refused", "a well-formed blueprint builds", {**case0, "inputHeightsConsideredHot": hot},
+                     observed=f"{type(e).__name__}: {e}"[:300])
+            continue
+        for an, ad in doc["assems"].items():
+            a = built[an]
+            for k, (b, bt) in enumerate(zip(a, ad["blocks"])):
+                for c in b:
+                    cd = doc["blocks"][bt].get(c.name)
+                    if not cd or "isotopics" not in cd:
+                        continue
+                    iso = doc["isos"][cd["isotopics"]]
+                    rho = iso_density(iso)
+                    if rho is None:
+                        continue
+                    mods = {m_: v for m_, v in mods_for(ad, k, c.name).items() if m_ in ("U235_wt_frac", "ZR_wt_frac")} if c.name == "fuel" or c.name == "slug" else {}
+                    area_cold = math.pi / 4.0 * (cd["od"] ** 2 - cd["id"] ** 2) * cd["mult"]
+                    h_in = ad["height"][k]
+                    fluid = isinstance(c.material, Fluid)
+                    if cd["material"] == "Custom":
+                        kind, want_rho, want_mass = "Custom", rho, rho * area_cold * b.getHeight()
+                    elif fluid:
+                        ratio = c.material.density(Tc=cd["Thot"]) / c.material.density(Tc=cd["Tinput"])
+                        kind, want_rho, want_mass = "fluid", rho * ratio, rho * ratio * area_cold * b.getHeight()
+                    else:
+                        dLL = c.material.linearExpansionFactor(Tc=cd["Thot"], T0=cd["Tinput"])
+                        kind = "solid"
+                        # the mass is the cold one under both conventions (cold input heights: the axial expansion that follows
+                        # construction conserves it); hot heights: the hot density is custom / (1 + dL/L)^2
+                        want_mass = rho * area_cold * h_in
+                        want_rho = rho / (1.0 + dLL) ** 2 if hot else want_mass / (area_cold * (1.0 + dLL) ** 2 * b.getHeight())
+                    case = {**case0, "design": an, "block": k, "type": bt, "component": c.name, "material": cd["material"], "Tinput": cd["Tinput"],
+                            "Thot": cd["Thot"], "isotopics": cd["isotopics"], "form": iso["form"], "custom density": rho, "mods": mods,
+                            "inputHeightsConsideredHot": hot, "height": h_in}
+                    if hot and abs(b.getHeight() - h_in) > 1e-9:
+                        fail_few(ctx, "bp-block-height", "blocks have the specified heights", case, observed=b.getHeight(), expected=h_in)
+                    if abs(c.density() - want_rho) > 1e-9 * want_rho:
+                        fail_few(ctx, f"bp-custom-density:{kind}", "a custom isotopic with a density gives the component that density at the input "
+                                 "temperature (scaled to the hot state as the height convention implies)", case, observed=c.density(), expected=want_rho)
+                    if abs(c.getMass() - want_mass) > 1e-9 * want_mass:
+                        fail_few(ctx, f"bp-custom-density-mass:{kind}", "the component holds the mass the input text describes "
+                                 "(density x cold area x mult x height)", case, observed=c.getMass(), expected=want_mass)
+                    ctx.count(f"custom-density mass checked ({kind}, {'Thot = Tinput' if cd['Thot'] == cd['Tinput'] else 'Thot != Tinput'}, "
+                              f"{'hot' if hot else 'cold'} input heights, {'explicit density' if iso['form'] != 'number densities' else 'implied by number densities'})")
+
+
 def run_isotopics(ctx):
+    del ISO_Q[:]
     from armi import settings
     from armi.nucDirectory import nucDir
     from armi.reactor import blueprints, reactors
@@ -2146,6 +2352,8 @@ def run_isotopics(ctx):
                                          observed=c.density(), expected=iso["density"])
                         ctx.count(f"custom-isotopic components checked ({cd['material']}, {iso['form']}, "
                                   f"{'density' if iso['density'] is not None else 'no density'}, {'modified' if mods else 'unmodified'})")
+            # mass from the input text for custom isotopics that carry a density, under both height conventions
+            iso_mass_check(ctx, doc, text, {**case0, "yaml": text})
             # order independence: the same document with the assembly designs defined in the opposite order
             try:
                 bp2 = blueprints.Blueprints.load(io.StringIO(iso_yaml(doc, reverse_assemblies=True)))
@@ -2161,6 +2369,16 @@ def run_isotopics(ctx):
             except Exception as e:
                 fail_few(ctx, "bp-wellformed-refused", "a well-formed blueprint builds", case0, observed=f"{type(e).__name__}: {e}"[:300])
             ctx.case(("iso", text), nontrivial=True, sample={"tag": tag, "isotopics": {n: v["form"] for n, v in doc["isos"].items()}} if t == 0 else None)
+    if ISO_Q:
+        out = lean_run("Blueprint", [q[0] for q in ISO_Q])
+        for (r, dens, c), o in zip(ISO_Q, out):
+            if o == "bad-op":
+                raise common.Infra(f"Blueprint driver: bad-op for {r}")
+            if not common.close(dens, common.unrat(o), 1e-9):
+                ctx.disagree("Blueprint model (customDensityHot) vs ComponentBlueprint._setComponentCustomDensity", {"request": r, "case": {k: v for k, v in c.items() if k != "yaml"}},
+                             o, repr(dens))
+        ctx.count("model lines (custom density)", len(ISO_Q))
+        del ISO_Q[:]
 
 
 # =========================================================================== entry points
@@ -2178,12 +2396,15 @@ def limit_failures(ctx, per_key=3):
 def run(ctx):
     limit_failures(ctx)
     ctx.rule = ("ascii maps: one case per (class, indexed contents) or (class, token lines); exhaustive over index sets of size <= 2 in "
-                "a 5x5 box and over all hole patterns of <= 2-ring outlines with 2 labels, sampled beyond; blueprints: one case per "
+                "a 5x5 box and over all hole patterns of <= 2-ring outlines with 2 labels, sampled beyond; grid blueprints: one case per "
+                "(geom, symmetry, contents, input form) saved and reloaded; pin blocks: one case per (block, declaration order); third-core "
+                "cores: one case per document (edge assemblies / outside location / plain); blueprints: one case per "
                 "generated YAML document (distinct text); non-trivial = all")
     with mute():
         run_ascii(ctx)
         run_grids(ctx)
         run_order(ctx)
+        run_third(ctx)
         run_blueprints(ctx)
         run_flags(ctx)
         run_isotopics(ctx)
@@ -2230,9 +2451,51 @@ def search(ctx, disagreements, broken):
         reqs = [str((d.case if isinstance(d.case, dict) else {}).get("request", "")) for d in disagreements]
         if any(r.startswith(("pinduct", "numrings")) for r in reqs):
             run_order(sub)
-        if any(r and not r.startswith(("pinduct", "numrings")) for r in reqs):
+        if any(r.startswith(("thirdload", "firstthird")) for r in reqs):
+            run_third(sub)
+        if any(r.startswith("customdensity") for r in reqs):
+            run_isotopics(sub)
+        if any(r and not r.startswith(("pinduct", "numrings", "thirdload", "firstthird", "customdensity")) for r in reqs):
             run_blueprints(sub)
     return [Failure(f.key, f.clause, f.case, f.observed, f.expected, "found by the directed search") for f in sub.failures]
+
+
+def replay_custom_density(payload, case):
+    """Re-evaluate one custom-density clause from the recorded YAML and the recorded numbers."""
+    import math
+    from armi import settings
+    from armi.materials import Fluid
+    from armi.reactor import blueprints
+    res = []
+    hot = bool(case.get("inputHeightsConsideredHot", True))
+    rho = case["custom density"]
+    with common.scratch_dir("c18r-"):
+        cs = settings.Settings().modified(newSettings={"power": 1e6, "nCycles": 1, "burnSteps": 1, "inputHeightsConsideredHot": hot})
+        bp = blueprints.Blueprints.load(io.StringIO(case["yaml"]))
+        if "design" in case:
+            a = bp.constructAssem(cs, name=case["design"])
+            b = a[case["block"]]
+            c = b.getComponentByName(case["component"])
+        else:
+            bp._prepConstruction(settings.Settings().modified(newSettings={"power": 1e6, "nCycles": 1, "burnSteps": 1}))
+            design = [d for d in bp.blockDesigns[case["type"]] if d.name == case["component"]][0]
+            c, b = design.construct(bp, {}, hot), None
+        if case["material"] == "Custom":
+            f = 1.0
+        elif isinstance(c.material, Fluid):
+            f = c.material.density(Tc=case["Thot"]) / c.material.density(Tc=case["Tinput"])
+        else:
+            f = 1.0 / (1.0 + c.material.linearExpansionFactor(Tc=case["Thot"], T0=case["Tinput"])) ** (2 if hot else 3)
+        if b is None or "mass" not in str(payload.get("key")):
+            if abs(c.density() - rho * f) > 1e-9 * rho * f:
+                res.append({"density": c.density(), "expected": rho * f})
+        else:
+            area = math.pi / 4.0 * (c.getDimension("od", cold=True) ** 2 - c.getDimension("id", cold=True) ** 2) * c.getDimension("mult")
+            solid = case["material"] != "Custom" and not isinstance(c.material, Fluid)
+            want = rho * area * case["height"] if solid else rho * f * area * b.getHeight()
+            if abs(c.getMass() - want) > 1e-9 * want:
+                res.append({"mass": c.getMass(), "expected": want})
+    return res
 
 
 def replay(ctx, payload):
@@ -2256,6 +2519,8 @@ def replay(ctx, payload):
             for f in sub.failures:
                 if f.key == payload.get("key") or f.key not in known:
                     res.append({"key": f.key, "observed": f.observed, "expected": f.expected})
+        elif "yaml" in case and str(payload.get("key", "")).startswith("bp-custom-density"):
+            res += replay_custom_density(payload, case)
         elif "yaml" in case and "systems:" not in case["yaml"]:
             # a single block design (declaration-order stream)
             def verdict(text):
@@ -2289,6 +2554,6 @@ def replay(ctx, payload):
                     if payload.get("key", "").startswith("bp-inconsistent-accepted"):
                         res.append({"accepted": True})
                 except Exception as e:
-                    if payload.get("key") == "bp-wellformed-refused":
+                    if str(payload.get("key", "")).startswith("bp-wellformed-refused"):
                         res.append({"refused": f"{type(e).__name__}: {e}"[:300]})
     return res
